@@ -815,6 +815,8 @@ def count_for(opname, tspecs):
 def inexact_reason(opspec, tspecs, pspecs, r):
     names = op_names(opspec)
     problem = r["problem"]
+    if any(isinstance(e[1], float) and (e[1] != e[1] or abs(e[1]) == math.inf) for e in r["tape"] if e[0] in ("U", "R", "G")):
+        return "non-finite draw (the primitive itself left the reals)"
     us = [Fraction(e[1]) for e in r["tape"] if e[0] == "U"]
 
     def chk_int_prob(sp):
@@ -954,7 +956,7 @@ def rand_real(rng, lb, ub, style):
         return rng.choice([lb, ub])
     w = ub - lb
     if w == math.inf or w != w:
-        return rng.choice([lb, ub, 0.0, lb / 2, ub / 2, 1.0, -1e300, 1e300 * rng.random()])
+        return min(max(rng.choice([lb, ub, 0.0, lb / 2, ub / 2, 1.0, -1e300, 1e300 * rng.random()]), lb), ub)
     if style == "grid":
         return min(max(lb + w * (rng.randrange(0, 65) / 64.0), lb), ub)
     x = lb + w * rng.random()
@@ -1408,7 +1410,7 @@ def run(ctx):
     ctx.trusted.append("the driver's wrappers of random.*, platypus.operators.clip / magnitude / roulette and CPython's derivation of uniform/randrange/gauss from the scripted primitives")
 
     stats, lits, litinfo = {}, [], []
-    per_op = ctx.scale(230, 3000)
+    per_op = ctx.scale(200, 3000)
     for (opname, opspec, tspecs, pspecs, rs, style) in corpus_cases():
         one_case(ctx, opname, opspec, tspecs, pspecs, rs, style, False, stats, lits, litinfo)
     for opname in ALL_OPS:
